@@ -391,6 +391,13 @@ func (m *moCtx) sortedAfter(fd *ast.FuncDecl, rs *ast.RangeStmt) bool {
 				return true
 			}
 			stack = append(stack, n)
+			// a mention inside a function literal is not a use at that point (the comparator bound
+			// to a local before the sort call)
+			for _, anc := range stack {
+				if _, isLit := anc.(*ast.FuncLit); isLit {
+					return true
+				}
+			}
 			if id, ok := n.(*ast.Ident); ok && m.info.Uses[id] == sl && id.Pos() > rs.End() {
 				if first == token.NoPos || id.Pos() < first {
 					first = id.Pos()
@@ -475,6 +482,14 @@ func (m *moCtx) comparatorTotal(fd *ast.FuncDecl, call *ast.CallExpr, sl types.O
 		return "sort call shape"
 	}
 	lit, ok := call.Args[1].(*ast.FuncLit)
+	if !ok {
+		// a local bound once to a function literal
+		if cid, isID := ast.Unparen(call.Args[1]).(*ast.Ident); isID {
+			if def := singleDefIn(m.info, fd.Body.List, m.info.Uses[cid]); def != nil {
+				lit, ok = def.(*ast.FuncLit)
+			}
+		}
+	}
 	if !ok || len(lit.Body.List) != 1 {
 		return "comparator is not a single-statement function literal"
 	}
